@@ -4,16 +4,18 @@ PROPS = {
     "C10": {
         "level": "proof",
         "kani": ["c10_f64", "c10_f62", "c10_f128"],
-        "verus": ["f64_core", "f62_core"],
+        "verus": ["f64_core", "f62_core", "f128_core"],
         "level_text": "Exact modular contracts (requires/ensures) on the real text of the base-field primitives, "
-                      "discharged for all inputs: Verus for the Montgomery cores of f64 and f62, Kani over the full "
-                      "2^64 x 2^64 domain for the linear operations and equality.",
-        "level_note": "Trusted: Verus/Z3, Kani/CBMC, vstd specs, assume_specification for u64::overflowing_add/sub. Under contract: "
-                      "f64/f62 add, sub, neg, double, mul, new, as_int, eq, normalize, mul_small, quadratic- and cubic-extension mul / "
-                      "mul_base (against the schoolbook product reduced by the documented polynomial), quadratic frobenius, "
-                      "f128 add/sub/neg/new/eq. NOT under contract: exp, exp_vartime, inv (except zero -> zero and "
-                      "termination on both zero representations for f62), cubic frobenius, extension inv, f128 mul/inv, "
-                      "division, square/cube defaults (see evidence).",
+                      "discharged for all inputs: Verus for the Montgomery cores of f64 and f62 and for the 128x128-bit "
+                      "multiply-and-reduce of f128, Kani over the full 2^64 x 2^64 domain for the linear operations and equality.",
+        "level_note": "Trusted: Verus/Z3, Kani/CBMC, vstd specs, assume_specification for u64::overflowing_add/sub, the value of the "
+                      "trait constant ZERO (axiom_zero, cross-checked by Kani). Under contract: "
+                      "f64/f62/f128 add, sub, neg, mul, new, eq; f64/f62 double, as_int, normalize, mul_small; f64 square (trait default "
+                      "at BaseElement), exp7; quadratic- and cubic-extension mul / mul_base (against the schoolbook product reduced by the "
+                      "documented polynomial), f64 quadratic and cubic square, quadratic and cubic frobenius (f64, f62; f128 quadratic); "
+                      "f128 limb helpers mul_128x64, mul_by_modulus, mul_reduce, sub_modulus, sub_192x192, add64_with_carry. "
+                      "NOT under contract: exp, exp_vartime, inv (except zero -> zero and termination on both zero representations "
+                      "for f62), extension inv, f128 inv, division, cube default (see evidence).",
         "trusted": [],
         "assumptions": [],
         "explanation": "",
